@@ -348,7 +348,7 @@ class Ctx:
         self.trusted = []
         self.assumptions = []
         self.extra = {}
-        self.escalated = False
+        self.escalated = bool(os.environ.get("VERIF_FORCE_ESCALATE"))     # (testing aid: how long does an escalated quick run take)
         if replay is None and os.path.isdir(REPLAYS):
             for f in os.listdir(REPLAYS):
                 if f.startswith(pid + "-"):
